@@ -7,15 +7,18 @@
 (*                  recomputed here from the documented predicate                            *)
 (*   kind "chroma": same with the circular distance                                          *)
 (*   kind "notes":  note lists + parameters, graph recomputed from the documented criteria   *)
+(*   kind "velocity": the note matching obtained inside transcription_velocity.match_notes, the  *)
+(*                  velocities and the tolerance; the returned pairs by Velocity!VelVerdict    *)
 (* The certificate (Berge) is checked instead of brute force, so 10-40 items per side work.  *)
-EXTENDS Hits, Matching, TLC, Json, IOUtils
+EXTENDS Hits, Matching, Velocity, TLC, Json, IOUtils
 TraceLog == JsonDeserialize(IOEnv.TRACE_FILE)
 VARIABLES i, rejects
 vars == <<i, rejects>>
 SeqToSetOfPairs(s) == {<<s[k][1], s[k][2]>> : k \in 1..Len(s)}
 Rt(x) == <<x[1], x[2]>>
 EdgesOf(ev) ==
-  IF ev.kind \in {"graph", "algo"} THEN SeqToSetOfPairs(ev.e)
+  IF ev.kind = "velocity" THEN {}
+  ELSE IF ev.kind \in {"graph", "algo"} THEN SeqToSetOfPairs(ev.e)
   ELSE IF ev.kind = "events" THEN EventEdges(ev.ref, ev.est, ev.w)
   ELSE IF ev.kind = "chroma" THEN ModEdges(ev.ref, ev.est, ev.w, ev.modulus)
   ELSE IF ev.kind = "notes" THEN NoteEdges(ev.ref, ev.est, Rt(ev.ot), Rt(ev.pt), Rt(ev.ratio), Rt(ev.mintol), ev.strict)
@@ -39,7 +42,8 @@ Verdict(ev) ==
   LET E == EdgesOf(ev)
       M == SeqToSetOfPairs(ev.m)
       v == MatchVerdict(M, E, ev.nl, ev.nr)
-  IN  IF ev.kind = "algo" /\ AlgoVerdict(ev, E) # "ok" THEN AlgoVerdict(ev, E)
+  IN  IF ev.kind = "velocity" THEN VelVerdict(ev.inner, ev.m, ev.rv, ev.evl, Rt(ev.tol), ev.u)
+      ELSE IF ev.kind = "algo" /\ AlgoVerdict(ev, E) # "ok" THEN AlgoVerdict(ev, E)
       ELSE IF Cardinality(M) # Len(ev.m) THEN "duplicate-pair"
       ELSE IF v # "ok" THEN v
       ELSE IF ev.count # Cardinality(M) THEN "count-differs"
